@@ -7,6 +7,7 @@ package sqlite
 
 //@ func (*SqliteStoreWorker).readPromise
 //@ props C16 C17 C01 C04 C20 C02
+//@ records handler
 //@ nopanic C13
 //@ ghostdb store
 //@ requires cmd != nil
@@ -16,6 +17,7 @@ package sqlite
 
 //@ func (*SqliteStoreWorker).createPromise
 //@ props C16 C17 C01 C03 C20 C02
+//@ records handler
 //@ nopanic C13
 //@ ghostdb store
 //@ stmt stmt PROMISE_INSERT_STATEMENT
@@ -27,6 +29,7 @@ package sqlite
 
 //@ func (*SqliteStoreWorker).createPromiseAndTask
 //@ props C16 C17 C01 C03 C06 C08 C02 C20
+//@ records handler
 //@ nopanic C13
 //@ ghostdb store
 //@ stmt promiseStmt PROMISE_INSERT_STATEMENT
@@ -43,6 +46,7 @@ package sqlite
 
 //@ func (*SqliteStoreWorker).updatePromise
 //@ props C16 C17 C01 C03 C04 C02 C20
+//@ records handler
 //@ nopanic C13
 //@ ghostdb store
 //@ stmt stmt PROMISE_UPDATE_STATEMENT
@@ -55,6 +59,7 @@ package sqlite
 
 //@ func (*SqliteStoreWorker).createCallback
 //@ props C16 C17 C05 C02 C20
+//@ records handler
 //@ nopanic C13
 //@ ghostdb store
 //@ stmt stmt CALLBACK_INSERT_STATEMENT
@@ -66,6 +71,7 @@ package sqlite
 
 //@ func (*SqliteStoreWorker).deleteCallbacks
 //@ props C16 C17 C05 C02 C20 C13
+//@ records handler
 //@ nopanic C13
 //@ ghostdb store
 //@ stmt stmt CALLBACK_DELETE_STATEMENT
@@ -76,6 +82,7 @@ package sqlite
 
 //@ func (*SqliteStoreWorker).readSchedule
 //@ props C16 C17 C10 C02 C20
+//@ records handler
 //@ nopanic C13
 //@ ghostdb store
 //@ requires cmd != nil
@@ -85,6 +92,7 @@ package sqlite
 
 //@ func (*SqliteStoreWorker).createSchedule
 //@ props C16 C17 C10 C02 C20
+//@ records handler
 //@ nopanic C13
 //@ ghostdb store
 //@ stmt stmt SCHEDULE_INSERT_STATEMENT
@@ -96,6 +104,7 @@ package sqlite
 
 //@ func (*SqliteStoreWorker).updateSchedule
 //@ props C16 C17 C10 C02 C20
+//@ records handler
 //@ nopanic C13
 //@ ghostdb store
 //@ stmt stmt SCHEDULE_UPDATE_STATEMENT
@@ -106,6 +115,7 @@ package sqlite
 
 //@ func (*SqliteStoreWorker).deleteSchedule
 //@ props C16 C17 C10 C02 C20
+//@ records handler
 //@ nopanic C13
 //@ ghostdb store
 //@ stmt stmt SCHEDULE_DELETE_STATEMENT
@@ -116,6 +126,7 @@ package sqlite
 
 //@ func (*SqliteStoreWorker).readLock
 //@ props C16 C17 C09 C02 C20
+//@ records handler
 //@ nopanic C13
 //@ ghostdb store
 //@ requires cmd != nil
@@ -125,6 +136,7 @@ package sqlite
 
 //@ func (*SqliteStoreWorker).acquireLock
 //@ props C16 C17 C09 C02 C20
+//@ records handler
 //@ nopanic C13
 //@ ghostdb store
 //@ stmt stmt LOCK_ACQUIRE_STATEMENT
@@ -135,6 +147,7 @@ package sqlite
 
 //@ func (*SqliteStoreWorker).releaseLock
 //@ props C16 C17 C09 C02 C20
+//@ records handler
 //@ nopanic C13
 //@ ghostdb store
 //@ stmt stmt LOCK_RELEASE_STATEMENT
@@ -145,6 +158,7 @@ package sqlite
 
 //@ func (*SqliteStoreWorker).hearbeatLocks
 //@ props C16 C17 C09 C02 C20
+//@ records handler
 //@ nopanic C13
 //@ ghostdb store
 //@ stmt stmt LOCK_HEARTBEAT_STATEMENT
@@ -155,6 +169,7 @@ package sqlite
 
 //@ func (*SqliteStoreWorker).timeoutLocks
 //@ props C16 C17 C09 C02 C20
+//@ records handler
 //@ nopanic C13
 //@ ghostdb store
 //@ stmt stmt LOCK_TIMEOUT_STATEMENT
@@ -165,6 +180,7 @@ package sqlite
 
 //@ func (*SqliteStoreWorker).readTask
 //@ props C16 C17 C07 C02 C20
+//@ records handler
 //@ nopanic C13
 //@ ghostdb store
 //@ requires cmd != nil
@@ -174,6 +190,7 @@ package sqlite
 
 //@ func (*SqliteStoreWorker).createTask
 //@ props C16 C17 C08 C02 C20 C07
+//@ records handler
 //@ nopanic C13
 //@ ghostdb store
 //@ stmt stmt TASK_INSERT_STATEMENT
@@ -187,6 +204,7 @@ package sqlite
 
 //@ func (*SqliteStoreWorker).createTasks
 //@ props C16 C17 C05 C08 C02 C20 C07 C13
+//@ records handler
 //@ nopanic C13
 //@ ghostdb store
 //@ stmt stmt TASK_INSERT_ALL_STATEMENT
@@ -197,6 +215,7 @@ package sqlite
 
 //@ func (*SqliteStoreWorker).completeTasks
 //@ props C16 C17 C05 C08 C02 C20 C07
+//@ records handler
 //@ nopanic C13
 //@ ghostdb store
 //@ stmt stmt TASK_COMPLETE_BY_ROOT_ID_STATEMENT
@@ -207,6 +226,7 @@ package sqlite
 
 //@ func (*SqliteStoreWorker).updateTask
 //@ props C16 C17 C07 C08 C02 C20
+//@ records handler
 //@ nopanic C13
 //@ ghostdb store
 //@ stmt stmt TASK_UPDATE_STATEMENT
@@ -219,6 +239,7 @@ package sqlite
 
 //@ func (*SqliteStoreWorker).heartbeatTasks
 //@ props C16 C17 C07 C02 C20
+//@ records handler
 //@ nopanic C13
 //@ ghostdb store
 //@ stmt stmt TASK_HEARTBEAT_STATEMENT
@@ -229,6 +250,36 @@ package sqlite
 
 //@ func (*SqliteStoreWorker).performCommands
 //@ props C06 C16 C17 C02 C01 C03 C04 C05 C07 C08 C09 C10
+// every command is executed by the handler of its kind, with its own payload, exactly once, and the result slot
+// holds what that handler returned (a result made up without running the statement is not a result)
+//@ site loop 2 call readPromise assert command.Kind == t_aio.ReadPromise && cmd == command.ReadPromise
+//@ site loop 2 call readPromises assert command.Kind == t_aio.ReadPromises && cmd == command.ReadPromises
+//@ site loop 2 call searchPromises assert command.Kind == t_aio.SearchPromises && cmd == command.SearchPromises
+//@ site loop 2 call createPromise assert command.Kind == t_aio.CreatePromise && cmd == command.CreatePromise
+//@ site loop 2 call updatePromise assert command.Kind == t_aio.UpdatePromise && cmd == command.UpdatePromise
+//@ site loop 2 call createCallback assert command.Kind == t_aio.CreateCallback && cmd == command.CreateCallback
+//@ site loop 2 call deleteCallbacks assert command.Kind == t_aio.DeleteCallbacks && cmd == command.DeleteCallbacks
+//@ site loop 2 call readSchedule assert command.Kind == t_aio.ReadSchedule && cmd == command.ReadSchedule
+//@ site loop 2 call readSchedules assert command.Kind == t_aio.ReadSchedules && cmd == command.ReadSchedules
+//@ site loop 2 call searchSchedules assert command.Kind == t_aio.SearchSchedules && cmd == command.SearchSchedules
+//@ site loop 2 call createSchedule assert command.Kind == t_aio.CreateSchedule && cmd == command.CreateSchedule
+//@ site loop 2 call updateSchedule assert command.Kind == t_aio.UpdateSchedule && cmd == command.UpdateSchedule
+//@ site loop 2 call deleteSchedule assert command.Kind == t_aio.DeleteSchedule && cmd == command.DeleteSchedule
+//@ site loop 2 call readLock assert command.Kind == t_aio.ReadLock && cmd == command.ReadLock
+//@ site loop 2 call acquireLock assert command.Kind == t_aio.AcquireLock && cmd == command.AcquireLock
+//@ site loop 2 call releaseLock assert command.Kind == t_aio.ReleaseLock && cmd == command.ReleaseLock
+//@ site loop 2 call hearbeatLocks assert command.Kind == t_aio.HeartbeatLocks && cmd == command.HeartbeatLocks
+//@ site loop 2 call timeoutLocks assert command.Kind == t_aio.TimeoutLocks && cmd == command.TimeoutLocks
+//@ site loop 2 call readTask assert command.Kind == t_aio.ReadTask && cmd == command.ReadTask
+//@ site loop 2 call readTasks assert command.Kind == t_aio.ReadTasks && cmd == command.ReadTasks
+//@ site loop 2 call readEnqueueableTasks assert command.Kind == t_aio.ReadEnqueueableTasks && cmd == command.ReadEnquableTasks
+//@ site loop 2 call createTask assert command.Kind == t_aio.CreateTask && cmd == command.CreateTask
+//@ site loop 2 call createTasks assert command.Kind == t_aio.CreateTasks && cmd == command.CreateTasks
+//@ site loop 2 call completeTasks assert command.Kind == t_aio.CompleteTasks && cmd == command.CompleteTasks
+//@ site loop 2 call updateTask assert command.Kind == t_aio.UpdateTask && cmd == command.UpdateTask
+//@ site loop 2 call heartbeatTasks assert command.Kind == t_aio.HeartbeatTasks && cmd == command.HeartbeatTasks
+//@ site loop 2 call createPromiseAndTask assert command.Kind == t_aio.CreatePromiseAndTask && cmd == command.CreatePromiseAndTask
+//@ site loop 2 backedge assert itercalls("handler") == 1 && results[i][j] == iterres("handler", 0)
 //@ nopanic C13
 //@ ghostdb store
 //@ opaque
@@ -260,6 +311,7 @@ package sqlite
 
 //@ func (*SqliteStoreWorker).readPromises
 //@ props C16 C17 C02 C20 C01 C04
+//@ records handler
 // every returned record is the row it was scanned from, column by column (C01, C20: what a sweep or a search reports is what is stored)
 //@ site loop 1 backedge assert scanned(rows, record, "ReadPromises")
 // what a sweep reads is exactly what its statement selects on: every returned row satisfies the selection (both back ends, same predicate)
@@ -272,6 +324,7 @@ package sqlite
 
 //@ func (*SqliteStoreWorker).searchPromises
 //@ props C16 C17 C02 C20 C14 C01 C04
+//@ records handler
 // every returned record is the row it was scanned from, column by column (C01, C20: what a sweep or a search reports is what is stored)
 //@ site loop 3 backedge assert scanned(rows, record, "SearchPromises")
 // result wiring (C14): every scanned row is returned, in scan order; the cursor value is the last row's sort id
@@ -293,6 +346,7 @@ package sqlite
 
 //@ func (*SqliteStoreWorker).readSchedules
 //@ props C16 C17 C02 C20 C10
+//@ records handler
 // every returned record is the row it was scanned from, column by column (C01, C20: what a sweep or a search reports is what is stored)
 //@ site loop 1 backedge assert scanned(rows, record, "ReadSchedules")
 // what a sweep reads is exactly what its statement selects on: every returned row satisfies the selection (both back ends, same predicate)
@@ -305,6 +359,7 @@ package sqlite
 
 //@ func (*SqliteStoreWorker).searchSchedules
 //@ props C16 C17 C02 C20 C14 C10
+//@ records handler
 // every returned record is the row it was scanned from, column by column (C01, C20: what a sweep or a search reports is what is stored)
 //@ site loop 2 backedge assert scanned(rows, record, "SearchSchedules")
 // result wiring (C14): every scanned row is returned, in scan order; the cursor value is the last row's sort id
@@ -322,6 +377,7 @@ package sqlite
 
 //@ func (*SqliteStoreWorker).readTasks
 //@ props C16 C17 C02 C20 C07 C08
+//@ records handler
 // every returned record is the row it was scanned from, column by column (C01, C20: what a sweep or a search reports is what is stored)
 //@ site loop 2 backedge assert scanned(rows, record, "ReadTasks")
 // what a sweep reads is exactly what its statement selects on: every returned row satisfies the selection (both back ends, same predicate)
@@ -336,6 +392,7 @@ package sqlite
 
 //@ func (*SqliteStoreWorker).readEnqueueableTasks
 //@ props C16 C17 C02 C20 C07 C08
+//@ records handler
 // every returned record is the row it was scanned from, column by column (C01, C20: what a sweep or a search reports is what is stored)
 //@ site loop 1 backedge assert scanned(rows, record, "ReadEnqueueableTasks")
 // what a sweep reads is exactly what its statement selects on: every returned row satisfies the selection (both back ends, same predicate)
@@ -362,6 +419,8 @@ package sqlite
 // Stop itself deletes nothing and drops nothing: only Reset does, and only when configured
 //@ site call Remove assert false
 //@ site call RemoveAll assert false
+//@ site call Truncate assert false
+//@ site call Create assert false
 //@ site call Exec assert false
 //@ requires s != nil && s.config != nil && s.db != nil && s.sq != nil && !closed(s.sq)
 //@ site call Reset assert s.config.Reset
@@ -401,9 +460,12 @@ package sqlite
 //@ props C06 C01 C02 C03 C04 C05 C07 C08 C09 C10 C20
 //@ abstract-calls .*
 //@ requires s != nil && s.db != nil
-//@ site call Remove assert false
-//@ site call RemoveAll assert false
-//@ site call Truncate assert false
+//@ site deepcall os.Remove assert false
+//@ site deepcall os.RemoveAll assert false
+//@ site deepcall os.Truncate assert false
+//@ site deepcall os.Create assert false
+//@ site deepcall os.WriteFile assert false
+//@ site deepcall os.Rename assert false
 //@ site call Reset assert false
 //@ site call Exec assert db == s.db && query == CREATE_TABLE_STATEMENT
 
